@@ -255,8 +255,20 @@ func (w *World) Explore(name string, opt Options) (*Report, error) {
 				if rep.perLabel == nil {
 					rep.perLabel = map[string]int{}
 				}
+				// keep up to 4 candidates per assertion label and, beyond that,
+				// up to 2 per (label, first two harness choices) - the choices a
+				// harness makes first are its configuration, and a candidate
+				// that does not reproduce natively under one configuration may
+				// under another - at most 16 per label
 				rep.perLabel[res.Violation.Label]++
-				if rep.perLabel[res.Violation.Label] <= 4 && len(rep.Violations) < 200 {
+				cfgKey := res.Violation.Label + "|"
+				for k := 0; k < 2 && k < len(res.Violation.Forks); k++ {
+					cfgKey += fmt.Sprint(res.Violation.Forks[k]) + ","
+				}
+				rep.perLabel[cfgKey]++
+				n := rep.perLabel[res.Violation.Label]
+				if (n <= 4 || (rep.perLabel[cfgKey] <= 2 && rep.perLabel["kept|"+res.Violation.Label] < 16)) && len(rep.Violations) < 200 {
+					rep.perLabel["kept|"+res.Violation.Label]++
 					rep.Violations = append(rep.Violations, res.Violation)
 				}
 				if opt.StopOnViolation {
